@@ -288,8 +288,9 @@ class C12(PropBase):
                 "per slot, at most one supplier call per slot, every recorded result and every remembered value is the slot's single "
                 "answer, no panic / ill-formed continuation, results complete and every requested slot fetched exactly once at "
                 "quiescence, processed <= requested <= distinct always and all equal at quiescence, no deadlock (some unfinished "
-                "task is not waiting for a held lock), a progress measure that no step increases and every non-waiting step lowers "
-                "(c12_source_instr_*); every poll schedule is an instruction schedule (c12_source_polls_are_instruction_schedules). "
+                "task is not waiting for a held lock), a progress measure that no step increases and every non-waiting step lowers, and "
+                "under any fair instruction schedule (every window of T steps contains every task) everything has finished after "
+                "T * measure steps (c12_source_instr_*, c12_source_instr_fair_schedule_finishes); every poll schedule is an instruction schedule (c12_source_polls_are_instruction_schedules). "
                 "The correspondence run of modes 0, 2, 5, 6, 7 executes the interpreter on the regenerated program next to the "
                 "hand-written model (their answers must be identical). The model is tied to the real Symbolizer / "
                 "HttpSymbolSupplier by polling boxed futures in the case's order (exhaustive small spaces, random larger ones, "
@@ -301,9 +302,9 @@ class C12(PropBase):
                 "wake the task whenever it answers Pending; atomicity of the five micro actions under real threads (std Mutex, "
                 "futures Mutex internals) is trusted, exercised by mode 5 only; round 5 refines them to single instructions of the regenerated "
                 "program (each touches one mutex-protected object or only the task's locals; that atomicity and ProgModel.istep's "
-                "reading of each instruction are trusted); micro-schedule and instruction-level liveness is a measure argument (no "
-                "fairness-to-termination theorem at those granularities; the poll-level ones are c12_no_lost_request / "
-                "c12_wake_driven_finishes / c12_source_fair_schedule_finishes); waker registration is poll-level (WakeModel). Cancellation of the lock holder is outside the property. No axioms.",
+                "reading of each instruction are trusted); the round-4 micro-schedule liveness is a measure argument, the fairness-to-"
+                "termination bounds are poll-level (c12_no_lost_request, c12_wake_driven_finishes) and instruction-level "
+                "(c12_source_instr_fair_schedule_finishes); waker registration is poll-level (WakeModel). Cancellation of the lock holder is outside the property. No axioms.",
     }
     assumptions = ["no cancellation of a requester that holds the slot's lock inside the supplier (excluded by the property); dropping a "
                    "requester that merely waits is covered by c12_drop_waiter_* and mode 3",
